@@ -79,9 +79,24 @@ Section Sql.
   Definition sql_reopen_cfg (h : sqlh) (igs igd : bool) : sqlh :=
     mkSql (q_rows h) (q_nsess h) (max_id (q_rows h)) 0 (q_cfg_max h) igs igd (q_cfg_max h).
 
+  (* History::ignore_dups(yes) on the open object: the unique index (entry, session_id) is created or dropped at once;
+     creating it fails when two rows of one session hold the same entry (entered under the other policy): the caller
+     gets the error (the stream's operation then switches back, which always succeeds) *)
+  Fixpoint has_dup_rows (rows : list row) : bool :=
+    match rows with
+    | [] => false
+    | r :: rest => existsb (same_key (r_sess r) (r_entry r)) rest || has_dup_rows rest
+    end.
+  Definition sql_set_dups (h : sqlh) (yes : bool) : sqlh * bool :=
+    if Bool.eqb (q_igd h) yes then (h, true)
+    else if yes && has_dup_rows (q_rows h) then (h, false)
+    else (mkSql (q_rows h) (q_nsess h) (q_cache h) (q_sess h) (q_max h) (q_igs h) yes (q_cfg_max h), true).
+  Definition sql_set_space (h : sqlh) (yes : bool) : sqlh :=
+    mkSql (q_rows h) (q_nsess h) (q_cache h) (q_sess h) (q_max h) yes (q_igd h) (q_cfg_max h).
+
   Inductive sop := SAdd (l : str) | SGet (i : nat) (d : sdir) | SLen | SSetMax (n : nat) | SReopen
-                 | SReopenCfg (igs igd : bool).
-  Inductive sout := SoBool (b : bool) | SoGet (r : option (nat * str)) | SoNat (n : nat) | SoUnit.
+                 | SReopenCfg (igs igd : bool) | SSetDups (yes : bool) | SSetSpace (yes : bool).
+  Inductive sout := SoBool (b : bool) | SoGet (r : option (nat * str)) | SoNat (n : nat) | SoUnit | SoRefused.
 
   Definition sql_step (h : sqlh) (o : sop) : sqlh * sout :=
     match o with
@@ -91,6 +106,8 @@ Section Sql.
     | SSetMax n => (sql_set_max h n, SoUnit)
     | SReopen => (sql_reopen h, SoUnit)
     | SReopenCfg igs igd => (sql_reopen_cfg h igs igd, SoUnit)
+    | SSetDups yes => let '(h', ok) := sql_set_dups h yes in (h', if ok then SoUnit else SoRefused)
+    | SSetSpace yes => (sql_set_space h yes, SoUnit)
     end.
   Fixpoint sql_run (h : sqlh) (ops : list sop) : sqlh * list sout :=
     match ops with
